@@ -5,6 +5,7 @@ import (
 	"bytes"
 	stdjson "encoding/json"
 	"fmt"
+	"github.com/gabriel-vasile/mimetype"
 	"math/rand"
 	"strings"
 	"time"
@@ -150,6 +151,8 @@ func hasHigh(b []byte) bool {
 	return false
 }
 
+var c18Predecessors = []string{"BM\x36\x00\x0c\x00\x00\x00\x00\x00\x36\x00\x00\x00\x28\x00", "ID3\x03\x00\x00\x00\x00\x00\x0a", "BZh91AY&SY", "fLaC\x00\x00\x00\x22", "wOFF\x00\x01\x00\x00", "Rar!\x1a\x07\x00", "\x1f\x8b\x08\x00", "xar!\x00\x1c", "GIF89a\x01\x00", "plain text", "{\"a\":1}"}
+
 func c18Forward(c *fw.Ctx, t *lib.Tree, kind string, a []byte, tag string) bool {
 	good := true
 	for _, lim := range []uint32{0, 3072, 512, uint32(len(a)), uint32(len(a) + 1)} {
@@ -161,6 +164,13 @@ func c18Forward(c *fw.Ctx, t *lib.Tree, kind string, a []byte, tag string) bool 
 		key := fw.InputKey(a, lim, entry)
 		c.Trace(func() (string, any) { return key, p })
 		var ch lib.Chain
+		if c.Rand.Intn(3) == 0 {
+			// the call before this one saw another kind of file (a format of lower priority than tar
+			// whose magic the member name may start with): nothing of it may be remembered
+			pre := c18Predecessors[c.Rand.Intn(len(c18Predecessors))]
+			mimetype.SetLimit(3072)
+			mimetype.Detect([]byte(pre))
+		}
 		if !c.Guard(key, func() any { return p }, func() { ch = lib.ChainOf(detectEntry(a, lim, entry)) }) {
 			continue
 		}
